@@ -359,9 +359,15 @@ impl Distrib for UnitCircle {
     /// assert!(vec.len_sqr().approx_eq(&1.0));
     /// ```
     fn sample(&self, rng: &mut DefaultRng) -> Vec2 {
-        let d = Uniform([-1.0; 2]..[1.0; 2]);
-        // Normalization preserves uniformity
-        Vec2::from(d.sample(rng)).normalize()
+        let d = Uniform([-1.0f32; 2]..[1.0; 2]);
+        loop {
+            // The zero vector cannot be normalized; draw again
+            let v = Vec2::from(d.sample(rng));
+            if v.len_sqr() > 0.0 {
+                // Normalization preserves uniformity
+                return v.normalize();
+            }
+        }
     }
 }
 
@@ -406,8 +412,14 @@ impl Distrib for UnitSphere {
     /// assert_approx_eq!(vec.len_sqr(), 1.0);
     /// ```
     fn sample(&self, rng: &mut DefaultRng) -> Vec3 {
-        let d = Uniform([-1.0; 3]..[1.0; 3]);
-        Vec3::from(d.sample(rng)).normalize()
+        let d = Uniform([-1.0f32; 3]..[1.0; 3]);
+        loop {
+            // The zero vector cannot be normalized; draw again
+            let v = Vec3::from(d.sample(rng));
+            if v.len_sqr() > 0.0 {
+                return v.normalize();
+            }
+        }
     }
 }
 
